@@ -30,7 +30,7 @@ func init() {
 		Modes: []Mode{{Name: "gate", Weight: 1}},
 		Gen:   genC12, Run: runC12,
 		QuickRuns: 5000, ThoroughRuns: 300000,
-		Rule: "plan = (namespace / or /admin, chain of 0..5 middlewares each with delay 0..400 ms, reject mask over clients, rejection form error|string|struct, optional room joined before deciding; 1..4 clients with connect instants; 0..12 namespace broadcasts at drawn instants; per admitted socket 0..6 events out of {string-first, int-first, with ack, rejected name}; transport; network and stall parameters) from VERIF_SEED; " +
+		Rule: "[half of the plans register several handlers (On and Once) per event name] plan = (namespace / or /admin, chain of 0..5 middlewares each with delay 0..400 ms, reject mask over clients, rejection form error|string|struct, optional room joined before deciding; 1..4 clients with connect instants; 0..12 namespace broadcasts at drawn instants; per admitted socket 0..6 events out of {string-first, int-first, with ack, rejected name}; transport; network and stall parameters) from VERIF_SEED; " +
 			"non-trivial = at least one client was rejected and one admitted, or a broadcast was issued while a chain was running, or an event was rejected; distinct = distinct history digest",
 		Assumptions: []string{
 			"a broadcast is 'issued before acceptance' when its Emit call returned before the last middleware of that client's chain returned",
